@@ -23,6 +23,15 @@ SCALAR_REF = {
 }
 
 
+def has_ptr(t):
+    k = t[0]
+    if k in ('string', 'binary', 'list', 'set', 'map'):
+        return True
+    if k == 'struct':
+        return t[2] or any(f.is_ptr() or has_ptr(f.typ) for f in t[1].fields) or t[1].has_unknown
+    return False
+
+
 class Emitter:
     def __init__(self):
         self.helpers = {}     # go type string + tag -> helper suffix
@@ -82,12 +91,14 @@ class Emitter:
         if k in SCALAR_FILL:
             o.append('func fill_%s(p *%s, name string, depth int) { *p = %s }' % (h, gt, SCALAR_FILL[k] % 'name'))
             o.append('func ref_%s(x %s) *RVal { return %s }' % (h, gt, SCALAR_REF[k] % 'x'))
+            o.append('func walk_%s(x %s, w *walker, name string, nocopy bool) {}' % (h, gt))
         elif k == 'string':
-            o.append('func fill_%s(p *string, name string, depth int) { *p = vrt.String(name, vrt.Choice(name+"#", boundS+1)) }' % h)
+            o.append('func fill_%s(p *string, name string, depth int) { *p = vrt.String(name, pick(name+"#", boundS+1)) }' % h)
             o.append('func ref_%s(x string) *RVal { return rStr(x) }' % h)
+            o.append('func walk_%s(x string, w *walker, name string, nocopy bool) { w.str(x, name, nocopy) }' % h)
         elif k == 'binary':
             o.append('''func fill_%s(p *[]byte, name string, depth int) {
-	c := vrt.Choice(name+"#", boundS+2)
+	c := pick(name+"#", boundS+2)
 	if c == 0 {
 		*p = nil
 		return
@@ -95,10 +106,11 @@ class Emitter:
 	*p = vrt.Bytes(name, c-1)
 }''' % h)
             o.append('func ref_%s(x []byte) *RVal { return rBin(x) }' % h)
+            o.append('func walk_%s(x []byte, w *walker, name string, nocopy bool) { w.bin(x, name, nocopy) }' % h)
         elif k in ('list', 'set'):
             eh = self.hname(t[1])
             o.append('''func fill_%s(p *%s, name string, depth int) {
-	c := vrt.Choice(name+"#", boundL+2)
+	c := pick(name+"#", boundL+2)
 	if c == 0 {
 		*p = nil
 		return
@@ -116,6 +128,16 @@ class Emitter:
 	}
 	return r
 }''' % (h, gt, eh))
+            o.append('''func walk_%s(x %s, w *walker, name string, nocopy bool) {
+	if x == nil {
+		return
+	}
+	var e %s
+	w.region(unsafe.Pointer(unsafe.SliceData(x)), cap(x)*int(unsafe.Sizeof(e)), int(unsafe.Alignof(e)), int(unsafe.Sizeof(e)), %s, name, len(x) == 0)
+	for i := range x {
+		walk_%s(x[i], w, name+"[]", false)
+	}
+}''' % (h, gt, go_type(t[1]), 'true' if has_ptr(t[1]) else 'false', eh))
         elif k == 'map':
             kh = self.hname(t[1])
             vh = self.hname(t[2])
@@ -124,7 +146,7 @@ class Emitter:
             if t[1][0] == 'double':
                 extra = '\n\t\tvrt.Assume(k == k) // NaN keys can not be looked up; outside the claim'
             o.append('''func fill_%s(p *%s, name string, depth int) {
-	c := vrt.Choice(name+"#", boundM+2)
+	c := pick(name+"#", boundM+2)
 	if c == 0 {
 		*p = nil
 		return
@@ -148,12 +170,18 @@ class Emitter:
 	}
 	return r
 }''' % (h, gt, kh, vh))
+            o.append('''func walk_%s(x %s, w *walker, name string, nocopy bool) {
+	for k, v := range x {
+		walk_%s(k, w, name+"{k}", false)
+		walk_%s(v, w, name+"{v}", false)
+	}
+}''' % (h, gt, kh, vh))
         elif k == 'struct':
             sd = t[1]
             self.add_struct(sd)
             if t[2]:
                 o.append('''func fill_%s(p **%s, name string, depth int) {
-	if depth >= boundD || vrt.Choice(name+"?", 2) == 0 {
+	if depth >= boundD || pick(name+"?", 2) == 0 {
 		*p = nil
 		return
 	}
@@ -166,9 +194,17 @@ class Emitter:
 	}
 	return refS_%s(x)
 }''' % (h, sd.name, sd.name))
+                o.append('''func walk_%s(x *%s, w *walker, name string, nocopy bool) {
+	if x == nil {
+		return
+	}
+	w.region(unsafe.Pointer(x), int(unsafe.Sizeof(*x)), int(unsafe.Alignof(*x)), int(unsafe.Sizeof(*x)), true, name, false)
+	walkS_%s(x, w, name)
+}''' % (h, sd.name, sd.name))
             else:
                 o.append('func fill_%s(p *%s, name string, depth int) { fillS_%s(p, name, depth+1) }' % (h, sd.name, sd.name))
                 o.append('func ref_%s(x %s) *RVal { return refS_%s(&x) }' % (h, sd.name, sd.name))
+                o.append('func walk_%s(x %s, w *walker, name string, nocopy bool) { walkS_%s(&x, w, name) }' % (h, sd.name, sd.name))
 
     # ---- struct ----
     def add_struct(self, sd):
@@ -219,7 +255,7 @@ class Emitter:
             h = self.hname(f.typ)
             if f.ptr:
                 gt = go_type(f.typ)
-                lines.append('\tif vrt.Choice(name+".%s?", 2) == 1 {\n\t\tvar x %s\n\t\tfill_%s(&x, name+".%s", depth)\n\t\tp.%s = &x\n\t}' % (
+                lines.append('\tif pick(name+".%s?", 2) == 1 {\n\t\tvar x %s\n\t\tfill_%s(&x, name+".%s", depth)\n\t\tp.%s = &x\n\t}' % (
                     f.name, gt, h, f.name, f.name))
             else:
                 lines.append('\tfill_%s(&p.%s, name+".%s", depth)' % (h, f.name, f.name))
@@ -238,6 +274,34 @@ class Emitter:
             lines.append('\tr.Unknown = p._unknownFields')
         lines.append('\treturn r\n}')
         fo.append('\n'.join(lines))
+        lines = ['func walkS_%s(p *%s, w *walker, name string) {' % (sd.name, sd.name)]
+        for f in sd.fields:
+            h = self.hname(f.typ)
+            nc = 'true' if f.nocopy else 'false'
+            if f.ptr:
+                gt = go_type(f.typ)
+                hp = 'true' if f.typ[0] in ('string',) else 'false'
+                lines.append('\tif p.%s != nil {\n\t\tw.region(unsafe.Pointer(p.%s), int(unsafe.Sizeof(*p.%s)), int(unsafe.Alignof(*p.%s)), int(unsafe.Sizeof(*p.%s)), %s, name+".%s", false)\n\t\twalk_%s(*p.%s, w, name+".%s", %s)\n\t}' % (
+                    f.name, f.name, f.name, f.name, f.name, hp, f.name, h, f.name, f.name, nc))
+            else:
+                lines.append('\twalk_%s(p.%s, w, name+".%s", %s)' % (h, f.name, f.name, nc))
+        if sd.has_unknown:
+            lines.append('\tw.bin(p._unknownFields, name+"._unknownFields", false)')
+        lines.append('}')
+        fo.append('\n'.join(lines))
+        lines = ['func prefillS_%s(p *%s, name string) {' % (sd.name, sd.name)]
+        for f in sd.fields:
+            h = self.hname(f.typ)
+            if f.typ[0] == 'struct' and not f.typ[2]:
+                continue  # by-value struct fields keep their fresh state (left open by the properties)
+            if f.ptr:
+                gt = go_type(f.typ)
+                lines.append('\tif pick(name+".%s?", 2) == 1 {\n\t\tvar x %s\n\t\tfill_%s(&x, name+".%s", 0)\n\t\tp.%s = &x\n\t}' % (
+                    f.name, gt, h, f.name, f.name))
+            else:
+                lines.append('\tfill_%s(&p.%s, name+".%s", 0)' % (h, f.name, f.name))
+        lines.append('}')
+        fo.append('\n'.join(lines))
         # typeOps
         newf = 'func() interface{} { p := new(%s); %sreturn p }' % (sd.name, 'p.InitDefault(); ' if sd.has_init else '')
         self.decl.append('''var ops_%s = &typeOps{
@@ -247,16 +311,18 @@ class Emitter:
 	ToRef:   func(p interface{}) *RVal { return refS_%s(p.(*%s)) },
 	Deref:   func(p interface{}) interface{} { return *(p.(*%s)) },
 	Fill:    func(p interface{}, name string) { fillS_%s(p.(*%s), name, 0) },
-}''' % (sd.name, sd.name, newf, sd.name, sd.name, sd.name, sd.name, sd.name, sd.name))
+	Prefill: func(p interface{}, name string) { prefillS_%s(p.(*%s), name) },
+	Walk:    func(p interface{}, w *walker) { walkS_%s(p.(*%s), w, "w") },
+}''' % (sd.name, sd.name, newf, sd.name, sd.name, sd.name, sd.name, sd.name, sd.name, sd.name, sd.name, sd.name, sd.name))
 
     def emit_file(self, structs, bounds, entries):
         """structs: StructDefs to include (with everything reachable); entries: list of (funcname, body)"""
         for sd in structs:
             self.add_struct(sd)
         src = ['// Code generated by /verif/gen; DO NOT EDIT.', 'package frugal', '',
-               'import (', '\t"math"', '', '\t"github.com/cloudwego/frugal/internal/vrt"', ')', '',
-               'var _ = math.Float64bits', 'var _ = vrt.Note', '']
-        src.append('const (\n\tboundS = %d\n\tboundL = %d\n\tboundM = %d\n\tboundD = %d\n)\n' % (
+               'import (', '\t"math"', '\t"unsafe"', '', '\t"github.com/cloudwego/frugal/internal/vrt"', ')', '',
+               'var _ = math.Float64bits', 'var _ = vrt.Note', 'var _ = unsafe.Pointer(nil)', '']
+        src.append('var (\n\tboundS = %d\n\tboundL = %d\n\tboundM = %d\n\tboundD = %d\n)\n' % (
             bounds['S'], bounds['L'], bounds['M'], bounds['D']))
         src += self.types + [''] + self.decl + ['']
         src.append('func init() {\n\t' + '\n\t'.join(self.inits) + '\n}\n')
